@@ -112,6 +112,10 @@ def gen_lists(w, tier):
         w.same("decltype(static_if<%s>(TF{}, FF{}))" % cs, "int" if c else "double", R, "static_if", "static_if<cond>", "cond=" + cs)
         w.same("decltype(static_if(std::integral_constant<bool, %s>{}, TF{}, FF{}))" % cs, "int" if c else "double", R,
                "static_if", "static_if(tag)", "cond=" + cs)
+    # the `self` a static_if branch receives is the identity: what the branch passes through it comes back as the same object, in the same value category
+    for arg, want in (("std::declval<int>()", "int&&"), ("std::declval<int&>()", "int&"), ("std::declval<const int&>()", "const int&"), ("std::declval<const X>()", "const X&&"),
+                      ("std::declval<X&>()", "X&")):
+        w.same("decltype(xtl::identity{}(%s))" % arg, want, R, "static_if", "identity (the branch's `self`) returns its argument itself", arg)
     tys = ["A", "B", "C", "D"]
     for n in (1, 2, 3) if tier == "quick" else (1, 2, 3, 4):
         for conds in itertools.product((True, False), repeat=n):
